@@ -74,8 +74,16 @@ def check_detection(col, case, sub='wrapper'):
     sched = case['schedule']
     mode = case.get('mode', 'read')
     adm, d, m, names = admissible(data, allowed)
-    (fm, fs), samples, got, err, w = imgdrive.drive_wrapper(
-        data, sched, mode, allowed=allowed, sample=True)
+    # an expected_format that is NOT among the allowed formats must have no
+    # effect at all (that format is never considered, nothing can abort)
+    expected = case.get('expected')
+    if expected is not None and (not allowed or expected in allowed):
+        raise core.HarnessError('C03 only uses expected_format outside '
+                                'allowed_formats: %r' % (case,))
+    with imgdrive.inspector_loglevel(case.get('loglevel')):
+        (fm, fs), samples, got, err, w = imgdrive.drive_wrapper(
+            data, sched, mode, allowed=allowed, sample=True,
+            expected=expected)
     n = len(data)
     near = any(abs(n - p) <= 1 for p in LENGTH_POINTS)
     kind = case['content'].get('kind', '?')
@@ -86,9 +94,13 @@ def check_detection(col, case, sub='wrapper'):
               'marginal=%d' % min(len(m), 2),
               'allowed=' + ('all' if not allowed else
                             ('1' if len(allowed) == 1 else 'subset')),
-              'outcome=' + str(fm), 'mode=' + mode],
+              'outcome=' + str(fm), 'mode=' + mode] +
+             (['expected-outside-allowed'] if expected else []) +
+             (['loglevel=' + case['loglevel']] if case.get('loglevel')
+              else []),
              {'content': _brief(case['content']), 'len': n,
-              'allowed': allowed, 'schedule': _short(sched), 'mode': mode,
+              'allowed': allowed, 'expected': expected,
+              'schedule': _short(sched), 'mode': mode,
               'definite': sorted(d), 'marginal': sorted(m), 'format': fm,
               'formats': fs})
 
@@ -243,7 +255,9 @@ def restricted_sweep(col, fmt):
                 {'overlay': dict(length=700, background='random', sigs=[]),
                  'kind': 'polyglot'},
                 {'base': ['raw', dict(length=700, kind='ascii')],
-                 'kind': 'valid'}]
+                 'kind': 'valid'},
+                {'bytes': ('\n'.join(imggen.VMDK_DEFAULT_LINES) + '\n')
+                 .encode().hex(), 'kind': 'textdesc'}]
     if fmt in ('vhdx', 'iso'):
         contents[0] = {'base': [fmt, {}], 'kind': 'valid'}
     for content in contents:
@@ -253,11 +267,20 @@ def restricted_sweep(col, fmt):
                 n = len(imgstrat.realize(content)[0])
                 if n / k > 5000:
                     continue
-                for mode in ('read', 'iter'):
+                for mode in ('read', 'iter', 'short'):
                     check_detection(col, {'content': content,
                                           'allowed': allowed,
                                           'schedule': ['fixed', k],
                                           'mode': mode}, sub)
+                # the format's own content, that format NOT allowed but
+                # named as expected_format
+                others = [f for f in ('raw', 'qcow2', 'gpt') if f != fmt]
+                check_detection(col, {'content': content, 'allowed': others,
+                                      'expected': fmt,
+                                      'schedule': ['fixed', k],
+                                      'mode': 'read',
+                                      'loglevel': 'DEBUG' if k == 7 else None},
+                                sub)
     col.exhaustive.setdefault(sub, True)
 
 
@@ -337,9 +360,17 @@ def wrapper(col, seed, max_examples, fmts, max_len):
                              if n / k <= 2048] + [['sizes', [n]]]),
             chunking.schedules(n, (4, 8, 64, 512, 592, 34816),
                                allow_tiny=n <= 20000)))
-        return {'content': content, 'allowed': draw(_allowed_strategy()),
+        allowed = draw(_allowed_strategy())
+        expected = None
+        if allowed and draw(st.booleans()):
+            outside = [f for f in ALL if f not in allowed]
+            if outside:
+                expected = draw(st.sampled_from(outside))
+        return {'content': content, 'allowed': allowed, 'expected': expected,
                 'schedule': sched,
-                'mode': draw(st.sampled_from(['read', 'read', 'iter']))}
+                'loglevel': draw(st.sampled_from([None, None, 'DEBUG'])),
+                'mode': draw(st.sampled_from(['read', 'read', 'iter',
+                                              'short']))}
     core.run_given(col, cases(), lambda c, case: check_detection(c, case),
                    seed, max_examples)
 
